@@ -1,12 +1,15 @@
 (* RG.Locks.Cache -- the FindType protocol as a transition system over an abstract cache, and
    [findtype_linearizable]: under ANY interleaving of ANY number of calls every finished call has returned what a
-   sequential execution returns, and the cache only ever holds correct entries.
+   sequential execution returns -- which is what a lone call on a fresh engine returns ([run_seq_results]) -- and the
+   cache only ever holds correct entries.
 
-   Protocol of one call (engineState.FindType):
-     RLock; r := cache[k]; RUnlock; if r is a hit return it;
-     Lock; v, err := compute(k)   (findTypeNoCache: a deterministic importer oracle, a Section variable);
+   Protocol of one call (engineState.FindType) for the name k, made for a package whose dependencies answer d
+   (d = None: the name's package is not among them; d = Some r: findDependency found it and the lookup in it gives r):
+     RLock; x := cache[k]; RUnlock; if x is a hit return it;
+     if d = Some r: return r                      (an answer for this package only: NOT cached engine-wide);
+     Lock; v, err := importer(k)                  (a deterministic oracle of the name alone, a Section variable);
      on error: Unlock, return the error (nothing stored);  otherwise cache[k] := v; Unlock; return v.
-   Two calls that miss concurrently both compute; by determinism of the oracle the second store is harmless.
+   Two calls that miss concurrently both import; by determinism of the oracle the second store is harmless.
    The map lookup and the map store are atomic steps here -- that they do not overlap in the implementation is
    exactly what RG.Locks.Model.discipline_implies_race_free gives for the extracted lock protocol. *)
 From Coq Require Import List Bool Arith Lia.
@@ -16,10 +19,12 @@ Section FindType.
   Variables key val : Type.
   Variable key_eqb : key -> key -> bool.
   Hypothesis key_eqb_spec : forall a b, reflect (a = b) (key_eqb a b).
-  (* the importer oracle: None = the lookup fails (error result, nothing cached) *)
+  (* the importer oracle: None = the import or the lookup fails (error result, nothing cached) *)
   Variable oracle : key -> option val.
 
   Definition cache := list (key * val).
+  (* what the dependencies of the calling package say about a name *)
+  Definition depans := option (option val).
 
   Fixpoint lookup (k : key) (c : cache) : option val :=
     match c with
@@ -36,96 +41,124 @@ Section FindType.
   Proof. intros N. cbn. destruct (key_eqb_spec k k'); [congruence | reflexivity]. Qed.
 
   (* ------------------------------------------------------------ sequential execution (executable) *)
-  Definition find_seq (c : cache) (k : key) : option val * cache :=
+  Definition find_seq (c : cache) (k : key) (d : depans) : option val * cache :=
     match lookup k c with
     | Some v => (Some v, c)
-    | None => match oracle k with
-              | Some v => (Some v, store k v c)
-              | None => (None, c)
+    | None => match d with
+              | Some r => (r, c)
+              | None => match oracle k with
+                        | Some v => (Some v, store k v c)
+                        | None => (None, c)
+                        end
               end
     end.
 
-  Fixpoint run_seq (c : cache) (ks : list key) : list (option val) * cache :=
+  Fixpoint run_seq (c : cache) (ks : list (key * depans)) : list (option val) * cache :=
     match ks with
     | [] => ([], c)
-    | k :: r => let '(res, c1) := find_seq c k in
-                let '(rs, c2) := run_seq c1 r in (res :: rs, c2)
+    | (k, d) :: r => let '(res, c1) := find_seq c k d in
+                     let '(rs, c2) := run_seq c1 r in (res :: rs, c2)
     end.
 
-  (* what a call returns, as a function of the initial cache alone *)
-  Definition spec (c0 : cache) (k : key) : option val :=
+  (* what the cache may hold for a name, as a function of the initial cache alone *)
+  Definition cspec (c0 : cache) (k : key) : option val :=
     match lookup k c0 with Some v => Some v | None => oracle k end.
+
+  (* what a call returns, as a function of the initial cache and its own inputs alone: the lone call *)
+  Definition spec (c0 : cache) (k : key) (d : depans) : option val :=
+    match lookup k c0 with
+    | Some v => Some v
+    | None => match d with Some r => r | None => oracle k end
+    end.
+
+  (* the dependencies and the importer agree where both resolve a name (same source, same type) *)
+  Definition consistent (k : key) (d : depans) : Prop :=
+    forall r v, d = Some r -> oracle k = Some v -> r = Some v.
 
   (* cache c is a correct extension of c0 *)
   Definition good (c0 c : cache) : Prop :=
     (forall k v, lookup k c0 = Some v -> lookup k c = Some v) /\
-    (forall k v, lookup k c = Some v -> spec c0 k = Some v).
+    (forall k v, lookup k c = Some v -> cspec c0 k = Some v).
 
   Lemma good_refl c0 : good c0 c0.
-  Proof. split; [auto|]. intros k v H. unfold spec. rewrite H. reflexivity. Qed.
+  Proof. split; [auto|]. intros k v H. unfold cspec. rewrite H. reflexivity. Qed.
 
-  Lemma good_store c0 c k v : good c0 c -> spec c0 k = Some v -> good c0 (store k v c).
+  Lemma good_store c0 c k v : good c0 c -> cspec c0 k = Some v -> good c0 (store k v c).
   Proof.
     intros [G1 G2] S. split.
     - intros k' v' H. destruct (key_eqb_spec k' k) as [->|N].
-      + rewrite lookup_store_same. unfold spec in S. rewrite H in S. congruence.
+      + rewrite lookup_store_same. unfold cspec in S. rewrite H in S. congruence.
       + rewrite lookup_store_other by assumption. auto.
     - intros k' v' H. destruct (key_eqb_spec k' k) as [->|N].
       + rewrite lookup_store_same in H. congruence.
       + rewrite lookup_store_other in H by assumption. auto.
   Qed.
 
-  Lemma find_seq_spec c0 c k : good c0 c ->
-    fst (find_seq c k) = spec c0 k /\ good c0 (snd (find_seq c k)).
+  Lemma good_miss c0 c k : good c0 c -> lookup k c = None -> lookup k c0 = None.
+  Proof. intros G L. destruct (lookup k c0) eqn:E; [|reflexivity]. apply (proj1 G) in E. congruence. Qed.
+
+  (* a hit in a good cache is what the lone call returns *)
+  Lemma good_hit c0 c k d v : good c0 c -> consistent k d -> lookup k c = Some v -> spec c0 k d = Some v.
   Proof.
-    intros G. unfold find_seq. destruct (lookup k c) as [v|] eqn:L; cbn.
-    - split; [symmetry; apply (proj2 G); assumption | assumption].
-    - assert (L0 : lookup k c0 = None).
-      { destruct (lookup k c0) eqn:E; [|reflexivity]. apply (proj1 G) in E. congruence. }
-      assert (S : spec c0 k = oracle k) by (unfold spec; rewrite L0; reflexivity).
-      destruct (oracle k) as [v|] eqn:O; cbn; split; auto. apply good_store; congruence.
+    intros G Co L. apply (proj2 G) in L. unfold cspec in L. unfold spec.
+    destruct (lookup k c0); [assumption|]. destruct d as [r|]; [|assumption].
+    apply (Co r v); [reflexivity | assumption].
   Qed.
 
-  Lemma run_seq_spec c0 ks : forall c, good c0 c ->
-    fst (run_seq c ks) = map (spec c0) ks /\ good c0 (snd (run_seq c ks)).
+  Lemma find_seq_spec c0 c k d : good c0 c -> consistent k d ->
+    fst (find_seq c k d) = spec c0 k d /\ good c0 (snd (find_seq c k d)).
   Proof.
-    induction ks as [|k r IH]; intros c G; cbn; [auto|].
-    destruct (find_seq c k) as [res c1] eqn:F.
-    pose proof (find_seq_spec c0 c k G) as [F1 F2]. rewrite F in F1, F2. cbn in F1, F2.
+    intros G Co. unfold find_seq. destruct (lookup k c) as [v|] eqn:L; cbn.
+    - split; [symmetry; eapply good_hit; eassumption | assumption].
+    - pose proof (good_miss _ _ _ G L) as L0.
+      assert (S : spec c0 k d = match d with Some r => r | None => oracle k end) by (unfold spec; rewrite L0; reflexivity).
+      destruct d as [r|]; cbn; [split; auto|].
+      destruct (oracle k) as [v|] eqn:O; cbn; split; auto.
+      apply good_store; [assumption|]. unfold cspec. rewrite L0. assumption.
+  Qed.
+
+  Lemma run_seq_spec c0 ks : (forall k d, In (k, d) ks -> consistent k d) -> forall c, good c0 c ->
+    fst (run_seq c ks) = map (fun x => spec c0 (fst x) (snd x)) ks /\ good c0 (snd (run_seq c ks)).
+  Proof.
+    induction ks as [|[k d] r IH]; intros Co c G; cbn; [auto|].
+    destruct (find_seq c k d) as [res c1] eqn:F.
+    destruct (find_seq_spec c0 c k d G) as [F1 F2]; [apply Co; left; reflexivity|]. rewrite F in F1, F2. cbn in F1, F2.
     destruct (run_seq c1 r) as [rs c2] eqn:R.
-    specialize (IH c1 F2). rewrite R in IH. cbn in IH. destruct IH as [I1 I2].
+    destruct (IH (fun k' d' H => Co k' d' (or_intror H)) c1 F2) as [I1 I2]. rewrite R in I1, I2. cbn in I1, I2.
     cbn. split; [congruence | assumption].
   Qed.
 
-  (* sequential execution in any order gives every call the same answer: spec *)
-  Corollary run_seq_results c0 ks : fst (run_seq c0 ks) = map (spec c0) ks.
-  Proof. apply run_seq_spec. apply good_refl. Qed.
+  (* history independence: in a sequential execution, in any order, every call returns what it returns alone *)
+  Corollary run_seq_results c0 ks : (forall k d, In (k, d) ks -> consistent k d) ->
+    fst (run_seq c0 ks) = map (fun x => spec c0 (fst x) (snd x)) ks.
+  Proof. intros Co. apply run_seq_spec; [assumption | apply good_refl]. Qed.
 
   (* ------------------------------------------------------------ concurrent execution *)
   Inductive pc :=
   | Start                       (* before RLock *)
   | HoldR                       (* read lock held, before the lookup *)
   | GotR (r : option val)       (* lookup done, read lock still held *)
-  | Missed                      (* read lock released after a miss, before Lock *)
-  | HoldW                       (* write lock held, before the computation *)
-  | Computed (r : option val)   (* findTypeNoCache returned, write lock held *)
+  | Missed                      (* read lock released after a miss *)
+  | HoldW                       (* write lock held, before the import *)
+  | Computed (r : option val)   (* the importer returned, write lock held *)
   | Stored (v : val)            (* cache[k] := v done, write lock held *)
   | Done (r : option val).      (* returned *)
 
-  Record call := C { ckey : key; cpc : pc }.
+  Record call := C { ckey : key; cdep : depans; cpc : pc }.
 
   Record cstate := CS { calls : list call; ccache : cache; creaders : nat; cwriter : bool }.
 
   Inductive cstep : call -> cache -> nat -> bool -> call -> cache -> nat -> bool -> Prop :=
-  | cs_rlock k c n : cstep (C k Start) c n false (C k HoldR) c (S n) false
-  | cs_lookup k c n w : cstep (C k HoldR) c n w (C k (GotR (lookup k c))) c n w
-  | cs_hit k v c n w : cstep (C k (GotR (Some v))) c n w (C k (Done (Some v))) c (pred n) w
-  | cs_miss k c n w : cstep (C k (GotR None)) c n w (C k Missed) c (pred n) w
-  | cs_lock k c : cstep (C k Missed) c 0 false (C k HoldW) c 0 true
-  | cs_compute k c n w : cstep (C k HoldW) c n w (C k (Computed (oracle k))) c n w
-  | cs_fail k c n w : cstep (C k (Computed None)) c n w (C k (Done None)) c n false
-  | cs_store k v c n w : cstep (C k (Computed (Some v))) c n w (C k (Stored v)) (store k v c) n w
-  | cs_unlock k v c n w : cstep (C k (Stored v)) c n w (C k (Done (Some v))) c n false.
+  | cs_rlock k d c n : cstep (C k d Start) c n false (C k d HoldR) c (S n) false
+  | cs_lookup k d c n w : cstep (C k d HoldR) c n w (C k d (GotR (lookup k c))) c n w
+  | cs_hit k d v c n w : cstep (C k d (GotR (Some v))) c n w (C k d (Done (Some v))) c (pred n) w
+  | cs_miss k d c n w : cstep (C k d (GotR None)) c n w (C k d Missed) c (pred n) w
+  | cs_dep k r c n w : cstep (C k (Some r) Missed) c n w (C k (Some r) (Done r)) c n w
+  | cs_lock k c : cstep (C k None Missed) c 0 false (C k None HoldW) c 0 true
+  | cs_compute k d c n w : cstep (C k d HoldW) c n w (C k d (Computed (oracle k))) c n w
+  | cs_fail k d c n w : cstep (C k d (Computed None)) c n w (C k d (Done None)) c n false
+  | cs_store k d v c n w : cstep (C k d (Computed (Some v))) c n w (C k d (Stored v)) (store k v c) n w
+  | cs_unlock k d v c n w : cstep (C k d (Stored v)) c n w (C k d (Done (Some v))) c n false.
 
   Inductive sstep : cstate -> cstate -> Prop :=
   | sstep_at l1 x l2 c n w x' c' n' w' :
@@ -136,27 +169,29 @@ Section FindType.
   | sreach_refl : sreach s0 s0
   | sreach_step s s' : sreach s0 s -> sstep s s' -> sreach s0 s'.
 
-  Definition cinit (c0 : cache) (ks : list key) : cstate :=
-    CS (map (fun k => C k Start) ks) c0 0 false.
+  Definition cinit (c0 : cache) (ks : list (key * depans)) : cstate :=
+    CS (map (fun x => C (fst x) (snd x) Start) ks) c0 0 false.
 
   (* per-call invariant *)
   Definition call_ok (c0 : cache) (x : call) : Prop :=
+    consistent (ckey x) (cdep x) /\
     match cpc x with
     | Start | HoldR => True
-    | GotR (Some v) => spec c0 (ckey x) = Some v
-    | GotR None | Missed | HoldW => lookup (ckey x) c0 = None
-    | Computed r => lookup (ckey x) c0 = None /\ r = spec c0 (ckey x)
-    | Stored v => spec c0 (ckey x) = Some v
-    | Done r => r = spec c0 (ckey x)
+    | GotR (Some v) => spec c0 (ckey x) (cdep x) = Some v
+    | GotR None | Missed => lookup (ckey x) c0 = None
+    | HoldW => lookup (ckey x) c0 = None /\ cdep x = None
+    | Computed r => lookup (ckey x) c0 = None /\ cdep x = None /\ r = oracle (ckey x)
+    | Stored v => lookup (ckey x) c0 = None /\ cdep x = None /\ oracle (ckey x) = Some v
+    | Done r => r = spec c0 (ckey x) (cdep x)
     end.
 
   Definition cinv (c0 : cache) (s : cstate) : Prop :=
     good c0 (ccache s) /\ Forall (call_ok c0) (calls s).
 
-  Lemma cinv_init c0 ks : cinv c0 (cinit c0 ks).
+  Lemma cinv_init c0 ks : (forall k d, In (k, d) ks -> consistent k d) -> cinv c0 (cinit c0 ks).
   Proof.
-    split; [apply good_refl|]. cbn. apply Forall_forall. intros x H. apply in_map_iff in H.
-    destruct H as [k [<- _]]. exact I.
+    intros Co. split; [apply good_refl|]. cbn. apply Forall_forall. intros x H. apply in_map_iff in H.
+    destruct H as [[k d] [<- Hin]]. split; [apply Co; assumption | exact I].
   Qed.
 
   Lemma cinv_step c0 s s' : cinv c0 s -> sstep s s' -> cinv c0 s'.
@@ -165,48 +200,53 @@ Section FindType.
     apply Forall_app in F. destruct F as [F1 F2]. inversion F2 as [|? ? Hx F3]; subst.
     assert (Re : forall c'', good c0 c'' -> call_ok c0 x' -> cinv c0 (CS (l1 ++ x' :: l2) c'' n' w')).
     { intros c'' G' H. split; [assumption|]. cbn. apply Forall_app. split; [assumption | constructor; assumption]. }
-    inversion CSt; subst; unfold call_ok in *; cbn [cpc ckey] in *.
+    destruct Hx as [Co Hx].
+    inversion CSt; subst; unfold call_ok in *; cbn [cpc ckey cdep] in *.
     - apply Re; auto.
-    - apply Re; auto. destruct (lookup k c') as [v|] eqn:L.
-      + apply (proj2 G). assumption.
-      + destruct (lookup k c0) eqn:E; [|reflexivity]. apply (proj1 G) in E. congruence.
-    - apply Re; auto.
+    - apply Re; auto. split; [assumption|]. destruct (lookup k c') as [v|] eqn:L.
+      + eapply good_hit; eassumption.
+      + eapply good_miss; eassumption.
     - apply Re; auto.
     - apply Re; auto.
     - apply Re; auto. split; [assumption|]. unfold spec. rewrite Hx. reflexivity.
-    - apply Re; auto. tauto.
-    - destruct Hx as [_ Hx]. apply Re; auto. apply good_store; auto.
     - apply Re; auto.
+    - apply Re; auto. tauto.
+    - apply Re; auto. split; [assumption|]. destruct Hx as (L & D & E). unfold spec. rewrite L, D. assumption.
+    - destruct Hx as (L & D & E). apply Re; [|split; auto].
+      apply good_store; [assumption|]. unfold cspec. rewrite L. auto.
+    - apply Re; auto. split; [assumption|]. destruct Hx as (L & D & E). unfold spec. rewrite L, D. auto.
   Qed.
 
-  Lemma cinv_reach c0 ks s : sreach (cinit c0 ks) s -> cinv c0 s.
-  Proof. induction 1; [apply cinv_init | eapply cinv_step; eassumption]. Qed.
+  Lemma cinv_reach c0 ks s : (forall k d, In (k, d) ks -> consistent k d) -> sreach (cinit c0 ks) s -> cinv c0 s.
+  Proof. intros Co. induction 1; [apply cinv_init; assumption | eapply cinv_step; eassumption]. Qed.
 
-  (* the list of keys never changes *)
-  Lemma keys_step s s' : sstep s s' -> map ckey (calls s') = map ckey (calls s).
+  (* the list of calls (name, dependency answer) never changes *)
+  Definition cin (x : call) : key * depans := (ckey x, cdep x).
+
+  Lemma keys_step s s' : sstep s s' -> map cin (calls s') = map cin (calls s).
   Proof.
     intros St. destruct St as [l1 x l2 c n w x' c' n' w' CSt]. cbn.
     rewrite !map_app. cbn. f_equal. f_equal. inversion CSt; reflexivity.
   Qed.
 
-  Lemma keys_reach c0 ks s : sreach (cinit c0 ks) s -> map ckey (calls s) = ks.
+  Lemma keys_reach c0 ks s : sreach (cinit c0 ks) s -> map cin (calls s) = ks.
   Proof.
     induction 1.
-    - cbn. rewrite map_map. cbn. apply map_id.
+    - cbn. rewrite map_map. unfold cin. cbn. rewrite <- (map_id ks) at 2. apply map_ext. intros [k d]. reflexivity.
     - rewrite (keys_step _ _ H0). assumption.
   Qed.
 
-  (* a successful call leaves its entry in the cache (entries are never removed or changed) *)
+  (* an answer that came from the cache or from the importer stays in the cache (entries are never removed or changed) *)
   Definition stored_ok (c : cache) (x : call) : Prop :=
     match cpc x with
-    | Stored v | Done (Some v) => lookup (ckey x) c = Some v
-    | GotR (Some v) => lookup (ckey x) c = Some v
+    | Stored v | GotR (Some v) => lookup (ckey x) c = Some v
+    | Done (Some v) => cdep x = None -> lookup (ckey x) c = Some v
     | _ => True
     end.
 
-  Lemma stored_mono c0 c k v x : good c0 c -> spec c0 k = Some v -> stored_ok c x -> call_ok c0 x -> stored_ok (store k v c) x.
+  Lemma stored_mono c0 c k v x : good c0 c -> cspec c0 k = Some v -> stored_ok c x -> stored_ok (store k v c) x.
   Proof.
-    intros G S H Ok. unfold stored_ok, call_ok in *. 
+    intros G S H. unfold stored_ok in *.
     assert (M : forall v', lookup (ckey x) c = Some v' -> lookup (ckey x) (store k v c) = Some v').
     { intros v' L. destruct (key_eqb_spec (ckey x) k) as [E|N].
       - rewrite E in *. rewrite lookup_store_same. apply (proj2 G) in L. congruence.
@@ -214,19 +254,22 @@ Section FindType.
     destruct (cpc x) as [| |[?|]| | |?|?|[?|]]; auto.
   Qed.
 
-  Lemma stored_reach c0 ks s : sreach (cinit c0 ks) s -> Forall (stored_ok (ccache s)) (calls s).
+  Lemma stored_reach c0 ks s : (forall k d, In (k, d) ks -> consistent k d) ->
+    sreach (cinit c0 ks) s -> Forall (stored_ok (ccache s)) (calls s).
   Proof.
-    intros R. induction R as [|s s' R IH St].
+    intros Co R. induction R as [|s s' R IH St].
     - cbn. apply Forall_forall. intros x H. apply in_map_iff in H. destruct H as [k [<- _]]. exact I.
-    - pose proof (cinv_reach _ _ _ R) as [G F].
+    - pose proof (cinv_reach _ _ _ Co R) as [G F].
       destruct St as [l1 x l2 c n w x' c' n' w' CSt]. cbn in *.
       apply Forall_app in IH. destruct IH as [I1 I2]. inversion I2 as [|? ? Hx I3]; subst.
       apply Forall_app in F. destruct F as [F1 F2]. inversion F2 as [|? ? Ox F3]; subst.
       inversion CSt; subst; try (apply Forall_app; split; [assumption | constructor; [|assumption]]);
-        unfold stored_ok in *; cbn [cpc ckey] in *; auto.
+        unfold stored_ok in *; cbn [cpc ckey cdep] in *; auto.
       + destruct (lookup k c'); auto.
+      + destruct r; auto. discriminate.
       + (* store *)
-        unfold call_ok in Ox. cbn [cpc ckey] in Ox. destruct Ox as [_ Ox]. symmetry in Ox.
+        destruct Ox as [_ (L & D & E)]. cbn [cpc ckey cdep] in *.
+        assert (S : cspec c0 k = Some v) by (unfold cspec; rewrite L; auto).
         apply Forall_app. split; [|constructor].
         * rewrite Forall_forall in *. intros y Hy. apply (stored_mono c0); auto. apply I1; assumption.
         * cbn [cpc ckey]. apply lookup_store_same.
@@ -235,26 +278,30 @@ Section FindType.
 
   (* THE refinement theorem *)
   Theorem findtype_linearizable :
-    forall (c0 : cache) (ks : list key) (s : cstate),
+    forall (c0 : cache) (ks : list (key * depans)) (s : cstate),
+      (forall k d, In (k, d) ks -> consistent k d) ->
       sreach (cinit c0 ks) s ->
       (* (1) every finished call returned what the sequential execution of the same calls returns *)
       (forall i x r, nth_error (calls s) i = Some x -> cpc x = Done r ->
                      nth_error (fst (run_seq c0 ks)) i = Some r) /\
+      (* (1') which is what the call returns when it is made alone on the initial cache *)
+      (forall x r, In x (calls s) -> cpc x = Done r -> r = spec c0 (ckey x) (cdep x)) /\
       (* (2) the cache extends the initial one and holds only correct entries *)
       good c0 (ccache s) /\
-      (* (3) a successful call's entry is in the cache *)
-      (forall x v, In x (calls s) -> cpc x = Done (Some v) -> lookup (ckey x) (ccache s) = Some v).
+      (* (3) an answer of the importer is in the cache *)
+      (forall x v, In x (calls s) -> cpc x = Done (Some v) -> cdep x = None -> lookup (ckey x) (ccache s) = Some v).
   Proof.
-    intros c0 ks s R. pose proof (cinv_reach _ _ _ R) as [G F]. repeat split; try apply G.
-    - intros i x r Hn Hd. rewrite run_seq_results.
+    intros c0 ks s Co R. pose proof (cinv_reach _ _ _ Co R) as [G F]. repeat split; try apply G.
+    - intros i x r Hn Hd. rewrite run_seq_results by assumption.
       pose proof (keys_reach _ _ _ R) as K.
-      assert (Hk : nth_error ks i = Some (ckey x)).
+      assert (Hk : nth_error ks i = Some (cin x)).
       { rewrite <- K. rewrite nth_error_map. rewrite Hn. reflexivity. }
       rewrite nth_error_map. rewrite Hk. cbn. f_equal.
       rewrite Forall_forall in F. apply nth_error_In in Hn. specialize (F _ Hn).
-      unfold call_ok in F. rewrite Hd in F. congruence.
-    - intros x v Hin Hd. pose proof (stored_reach _ _ _ R) as S. rewrite Forall_forall in S.
-      specialize (S _ Hin). unfold stored_ok in S. rewrite Hd in S. assumption.
+      destruct F as [_ F]. rewrite Hd in F. congruence.
+    - intros x r Hin Hd. rewrite Forall_forall in F. destruct (F _ Hin) as [_ F']. rewrite Hd in F'. assumption.
+    - intros x v Hin Hd Hn. pose proof (stored_reach _ _ _ Co R) as S. rewrite Forall_forall in S.
+      specialize (S _ Hin). unfold stored_ok in S. rewrite Hd in S. auto.
   Qed.
 
   (* the lock part of the protocol: a store happens only under the write lock with no reader inside *)
@@ -272,7 +319,9 @@ Section FindType.
   Lemma lock_inv_reach c0 ks s : sreach (cinit c0 ks) s -> lock_inv s.
   Proof.
     induction 1 as [|s s' R IH St].
-    - unfold lock_inv. cbn. assert (forall f, (forall k, f (C k Start) = false) -> length (filter f (map (fun k => C k Start) ks)) = 0).
+    - unfold lock_inv. cbn.
+      assert (H : forall f, (forall k d, f (C k d Start) = false) ->
+                            length (filter f (map (fun x : key * depans => C (fst x) (snd x) Start) ks)) = 0).
       { intros f Hf. induction ks; cbn; [reflexivity|]. rewrite Hf. assumption. }
       rewrite !H by reflexivity. auto.
     - destruct St as [l1 x l2 c n w x' c' n' w' CSt]. unfold lock_inv in *. cbn in *.
@@ -292,9 +341,11 @@ End FindType.
 
 Arguments lookup {key val} key_eqb k c.
 Arguments store {key val} k v c.
-Arguments find_seq {key val} key_eqb oracle c k.
+Arguments find_seq {key val} key_eqb oracle c k d.
 Arguments run_seq {key val} key_eqb oracle c ks.
-Arguments spec {key val} key_eqb oracle c0 k.
+Arguments cspec {key val} key_eqb oracle c0 k.
+Arguments spec {key val} key_eqb oracle c0 k d.
+Arguments consistent {key val} oracle k d.
 Arguments good {key val} key_eqb oracle c0 c.
 Arguments Start {val}.
 Arguments HoldR {val}.
@@ -304,8 +355,9 @@ Arguments HoldW {val}.
 Arguments Computed {val} r.
 Arguments Stored {val} v.
 Arguments Done {val} r.
-Arguments C {key val} ckey cpc.
+Arguments C {key val} ckey cdep cpc.
 Arguments ckey {key val} c.
+Arguments cdep {key val} c.
 Arguments cpc {key val} c.
 Arguments CS {key val} calls ccache creaders cwriter.
 Arguments calls {key val} c.
@@ -320,45 +372,42 @@ Arguments in_read {key val} x.
 Arguments in_write {key val} x.
 
 (* ------------------------------------------------------------------------------------------------------------
-   The faithful sequential model: findTypeNoCache first looks among the dependencies of the package being checked
-   (findDependency) and only then asks the importer, so what a miss computes depends on the calling context as well
-   -- while the cache is keyed by the name alone.  [run_dep] is what the implementation does; it coincides with
-   [run_seq] (and the theorems above apply) exactly when the oracle does not depend on the context. *)
+   Calls as the implementation receives them: (package being checked, name).  [dep p k] is what findDependency and
+   the scope lookup give for that package; [run_dep] is the implementation's sequential behaviour and [lone] the
+   answer of a single call on the initial cache.  [history_independent]: they coincide for every call of every
+   sequence -- FindType's answer is a function of its inputs, not of what other runs asked before. *)
 Section Dep.
   Variables key val ctx : Type.
   Variable key_eqb : key -> key -> bool.
-  Variable oracle2 : ctx -> key -> option val.
+  Hypothesis key_eqb_spec : forall a b, reflect (a = b) (key_eqb a b).
+  Variable oracle : key -> option val.
+  Variable dep : ctx -> key -> option (option val).
 
-  Definition find_dep (c : cache key val) (p : ctx) (k : key) : option val * cache key val :=
-    match lookup key_eqb k c with
-    | Some v => (Some v, c)
-    | None => match oracle2 p k with
-              | Some v => (Some v, store k v c)
-              | None => (None, c)
-              end
-    end.
+  Definition as_call (op : ctx * key) : key * option (option val) := (snd op, dep (fst op) (snd op)).
 
-  Fixpoint run_dep (c : cache key val) (ops : list (ctx * key)) : list (option val) * cache key val :=
-    match ops with
-    | [] => ([], c)
-    | (p, k) :: r => let '(res, c1) := find_dep c p k in
-                     let '(rs, c2) := run_dep c1 r in (res :: rs, c2)
-    end.
+  Definition run_dep (c : cache key val) (ops : list (ctx * key)) : list (option val) * cache key val :=
+    run_seq key_eqb oracle c (map as_call ops).
 
-  (* what a lone call on a fresh engine (cache c0) returns *)
-  Definition lone (c0 : cache key val) (op : ctx * key) : option val := fst (find_dep c0 (fst op) (snd op)).
+  Definition lone (c0 : cache key val) (op : ctx * key) : option val :=
+    fst (find_seq key_eqb oracle c0 (snd op) (dep (fst op) (snd op))).
 
-  Lemma run_dep_indep (p0 : ctx) :
-    (forall p q k, oracle2 p k = oracle2 q k) ->
-    forall ops c, run_dep c ops = run_seq key_eqb (oracle2 p0) c (map snd ops).
+  Lemma lone_spec c0 op : lone c0 op = spec key_eqb oracle c0 (snd op) (dep (fst op) (snd op)).
   Proof.
-    intros Ind. induction ops as [|[p k] r IH]; intros c; cbn; [reflexivity|].
-    unfold find_dep, find_seq. rewrite (Ind p p0 k).
-    destruct (lookup key_eqb k c); [rewrite IH; reflexivity|].
-    destruct (oracle2 p0 k); rewrite IH; reflexivity.
+    unfold lone, find_seq, spec. destruct (lookup key_eqb (snd op) c0); [reflexivity|].
+    destruct (dep (fst op) (snd op)); [reflexivity|]. destruct (oracle (snd op)); reflexivity.
+  Qed.
+
+  Theorem history_independent :
+    (forall p k, consistent oracle k (dep p k)) ->
+    forall c0 ops, fst (run_dep c0 ops) = map (lone c0) ops.
+  Proof.
+    intros Co c0 ops. unfold run_dep. rewrite (run_seq_results key val key_eqb key_eqb_spec oracle).
+    - rewrite map_map. apply map_ext. intros op. rewrite lone_spec. reflexivity.
+    - intros k d Hin. apply in_map_iff in Hin. destruct Hin as [[p k'] [E _]]. unfold as_call in E. cbn in E.
+      inversion E; subst. apply Co.
   Qed.
 End Dep.
 
-Arguments find_dep {key val ctx} key_eqb oracle2 c p k.
-Arguments run_dep {key val ctx} key_eqb oracle2 c ops.
-Arguments lone {key val ctx} key_eqb oracle2 c0 op.
+Arguments as_call {key val ctx} dep op.
+Arguments run_dep {key val ctx} key_eqb oracle dep c ops.
+Arguments lone {key val ctx} key_eqb oracle dep c0 op.
